@@ -16,6 +16,26 @@ def K(h, tier="quick", timeout=300, **kw):
 
 PLANS = {}
 
+
+def M(name):
+    """lazy binding to an engine-M plan function (mirsym.mengine.<name>)"""
+    def run(tier, seed):
+        import sys
+        import os
+        sys.path.insert(0, os.path.dirname(os.path.dirname(os.path.abspath(__file__))))
+        from mirsym import mengine
+        return getattr(mengine, name)(tier, seed)
+    return run
+
+
+M_ASSUME = [
+    "engine M interprets f64 over the reals with an 'undefined' flag (NaN / division by zero / domain error): verdicts are about the "
+    "formulas in exact arithmetic, for all real inputs and all counts; accumulated floating-point rounding is outside the claim",
+    "counts are below 2^53 (u64 -> f64 exact) and, in inductive step queries, modelled as reals constrained to {0,1,2,3,4} U [5, 2^53)",
+    "path feasibility is decided on the linear part of the path condition (over-approximation: only ever keeps extra paths)",
+    "the MIR is regenerated from /repo's working tree on every run (cargo +nightly rustc -- -Zunpretty=mir, features libm + verif-hooks)",
+]
+
 PLANS["C14"] = {
     "k": [
         K("c14::step", note="one add / one merge from an arbitrary non-NaN state, full doubles: all histories"),
@@ -164,3 +184,144 @@ PLANS["C15"] = {
         "assumptions": COMMON_ASSUME,
     },
 }
+
+MOMENT_FUNCS = ["Mean/Variance/Skewness/Kurtosis::{new,add,merge,accessors}", "define_moments!(Moments4, 4) / (M5, 5) in the harness crate",
+                "Covariance::{new,add,merge,accessors}", "WeightedMean/WeightedMeanWithError::{new,add,merge,accessors}"]
+STATE_INV = ("hook-built states satisfy the representation invariant: n == 0 => the new() values; n >= 1 => fields finite, "
+             "sum of squares >= 0; n == 1 => central sums 0; counts <= 2^53")
+PLANS["C11"] = {
+    "k": [K("c11::" + h, timeout=600, note=n) for h, n in [
+        ("mean", "Mean: merge with new()/default() on either side is bit-exact identity; argument unchanged; is_empty iff len==0"),
+        ("mean_len", "Mean: any two states: merged len is the exact sum; argument unchanged"),
+        ("variance", "Variance identity"), ("variance_len", "Variance lengths add"),
+        ("skewness", "Skewness identity"), ("skewness_len", "Skewness lengths add"),
+        ("kurtosis", "Kurtosis identity"), ("kurtosis_len", "Kurtosis lengths add"),
+        ("moments4", "Moments4 identity"), ("moments4_len", "Moments4 lengths add"),
+        ("moments5", "define_moments!(M5,5) identity"),
+        ("covariance", "Covariance identity"), ("covariance_len", "Covariance lengths add"),
+        ("weighted_mean", "WeightedMean identity (statistics)"),
+        ("weighted_mean_with_error", "WeightedMeanWithError identity (all statistics), incl. all-zero-weight states"),
+        ("weighted_mean_with_error_len", "WeightedMeanWithError lengths add"),
+        ("histogram3", "LEN-3 histogram: zero-count histogram is the identity, totals add, edges kept"),
+    ]],
+    "meta": {
+        "functions_encoded": MOMENT_FUNCS + ["define_histogram! Merge (LEN 3)", "derived Clone"],
+        "bounds": ["one merge from arbitrary well-formed states (inductive: covers every history of adds and merges); " + STATE_INV],
+        "outside_bounds": ["u64 count overflow; counts above 2^53", "Min/Max are covered by C14 (state is one double)"],
+        "assumptions": COMMON_ASSUME + [STATE_INV],
+    },
+}
+
+STD_PANIC = [r"assertion `left != right` failed|assertion failed: `\(left != right\)`|left != right"]
+PLANS["C16"] = {
+    "k": [
+        K("c16::empty", timeout=600, note="every accessor of every estimator on new() and default(): documented sentinel, no panic"),
+        K("c16::single", timeout=900, note="one observation x over the C01 domain: mean exactly x, spread statistics exactly 0, sample statistics NaN"),
+        K("c16::single_weighted", timeout=600, note="weighted estimators, one observation, weight 0 or in [1e-6,1e6]"),
+        K("c16::small_sentinels", timeout=900, note="sizes 2 and 3: sample_excess_kurtosis NaN, central_moment(0)=1, (1)=0"),
+        K("c16::const_mean_variance", timeout=600, note="inductive step: n copies of x (n < 2^53, x in C01 domain) + add(x): mean exactly x, variance exactly 0"),
+        K("c16::const_skewness", timeout=600, note="same for Skewness"),
+        K("c16::const_kurtosis", timeout=600, note="same for Kurtosis"),
+        K("c16::const_moments4", timeout=900, note="same for Moments4"),
+        K("c16::const_covariance", timeout=600, note="same for Covariance"),
+        K("c16::std_moment_zero_variance", must_panic=True, allow_fail=STD_PANIC, require_fail=STD_PANIC, allow_panic=STD_PANIC,
+          note="standardized_moment(3|4) at zero variance asserts (the documented exception)"),
+        K("c16::const_moments5", tier="thorough", timeout=1800, note="define_moments!(M5,5) constant stream step"),
+    ],
+    "meta": {
+        "functions_encoded": MOMENT_FUNCS + ["Quantile::{new,add,quantile}", "Min/Max::{new,min,max}"],
+        "bounds": ["sample sizes 0 and 1 for every accessor; 2 and 3 for the sample-size sentinels; constant streams of any length n < 2^53 by induction"],
+        "outside_bounds": ["constant streams reached through merges"],
+        "assumptions": COMMON_ASSUME,
+    },
+}
+
+PLANS["C17"] = {
+    "k": [
+        K("c17::variance_add_sign", timeout=900, note="Variance: one add from an arbitrary state (|x|,|mean| <= 1e150, n < 2^53): sum of squares never decreases, variances >= 0, error not NaN"),
+        K("c17::variance_merge_sign", timeout=900, note="Variance: merge of two arbitrary states"),
+        K("c17::covariance_add_sign", timeout=900, note="Covariance x/y variances after add"),
+        K("c17::covariance_merge_sign", timeout=900, note="Covariance x/y variances after merge"),
+        K("c17::moments4_add_sign", timeout=900, note="Moments4 second central sum after add"),
+        K("c17::mean_first", note="first observation: mean exactly x"),
+        K("c17::mean_add_hull", timeout=1200, note="Welford step with count 1..1024: new mean between old mean and sample up to 2^-49*max"),
+        K("c17::variance_mean_add_hull", tier="thorough", timeout=3600, note="same through Variance::add"),
+        K("c17::hist_variance_range", tier="thorough", timeout=3600, note="LEN 2 bin variance in [0,total/4], counts <= 2^20"),
+        K("c17::effective_len_range", tier="thorough", timeout=3600, note="effective_len in [1,3] for three lattice weights k/4"),
+    ],
+    "meta": {
+        "functions_encoded": MOMENT_FUNCS + ["Histogram::variance (LEN 2)"],
+        "bounds": ["one add / one merge from arbitrary states with |values| <= 1e150, counts < 2^53 (inductive over histories)",
+                   "mean hull: counts 1..1024"],
+        "outside_bounds": ["mean hull under merge bit-precisely (decided in exact arithmetic by engine M)", "|x| > 1e150"],
+        "assumptions": COMMON_ASSUME,
+    },
+}
+
+PLANS["C20"] = {
+    "k": [
+        K("c20::mean3", timeout=600, note="Mean: 3 symbolic values: collect by value / by reference / extend in two pieces at a symbolic split == add loop, bit for bit"),
+        K("c20::variance3", timeout=900, note="Variance"), K("c20::skewness3", timeout=900, note="Skewness"),
+        K("c20::kurtosis3", timeout=1200, note="Kurtosis"), K("c20::moments4_3", timeout=1200, note="Moments4"),
+        K("c20::covariance3", timeout=1200, note="Covariance (pairs)"), K("c20::weighted3", timeout=900, note="WeightedMean (pairs)"),
+        K("c20::weighted_err3", timeout=1200, note="WeightedMeanWithError (pairs)"),
+        K("c20::estimate_is_headline", timeout=900, note="estimate() == headline accessor on arbitrary states"),
+        K("c20::concat_short", timeout=900, note="concatenate! short syntax [Min,Max,Mean]: new/default/collect"),
+        K("c20::concat_long", timeout=1800, note="concatenate! long syntax [Variance x4, Quantile, Kurtosis x2]"),
+    ],
+    "meta": {
+        "functions_encoded": MOMENT_FUNCS + ["impl_from_iterator!, impl_extend! expansions", "FromIterator/Extend for pair estimators", "concatenate! expansions in the harness crate"],
+        "bounds": ["sequences of 3 values over the C01 domain (pairs for pair estimators), symbolic split point for extend"],
+        "outside_bounds": ["sequences longer than 3 (every path is the same add loop; the element count is checked through len)"],
+        "assumptions": COMMON_ASSUME,
+    },
+}
+
+
+def _mplan(prop, fn, funcs, bounds, outside, k=()):
+    PLANS.setdefault(prop, {"k": [], "meta": {"functions_encoded": [], "bounds": [], "outside_bounds": [], "assumptions": list(COMMON_ASSUME)}})
+    pl = PLANS[prop]
+    pl["m"] = M(fn)
+    pl["k"] = list(pl.get("k", [])) + list(k)
+    me = pl["meta"]
+    me["functions_encoded"] = list(me.get("functions_encoded", [])) + funcs
+    me["bounds"] = list(me.get("bounds", [])) + bounds
+    me["outside_bounds"] = list(me.get("outside_bounds", [])) + outside
+    me["assumptions"] = list(me.get("assumptions", [])) + M_ASSUME
+
+
+ROUNDING_OUT = ("accumulated floating-point rounding error for n > 4, off-lattice data and conditioning up to 1e12 (DESIGN.md section 3): "
+                "neither bit-blasting nor a (1+eps) model in NRA reaches it")
+
+_mplan("C01", "plan_c01", ["Mean/Variance: new, default, add (increment, add_inner), mean, len, is_empty, population_variance, sample_variance, "
+                           "variance_of_mean, error, estimate"],
+       ["M: inductive add-step for every n >= 0 and every real x; accessors on every exact summary; definitional streams of 1..5 (quick) / 1..7 (thorough) symbolic reals"],
+       [ROUNDING_OUT])
+_mplan("C02", "plan_c02", ["Merge::merge for Mean, Variance, Skewness, Kurtosis, Moments4 and define_moments! at orders 5, 6 (+8, 10 thorough)"],
+       ["M: merge-step for all counts na, nb >= 0 and all real summaries; 4 (quick) / 5 (thorough) symbolic values x every composition into <= 3 / <= 4 "
+        "contiguous chunks (empty included) x every binary merge tree"], [ROUNDING_OUT, "define_moments! orders other than 4,5,6,8,10"])
+_mplan("C03", "plan_c03", ["Skewness/Kurtosis: new, add, add_inner, skewness, kurtosis, mean, variances, error_mean"],
+       ["M: add-step all n; accessor identities on exact summaries (sign + squared identity for roots); definitional streams of 2..4 (5 thorough)"],
+       [ROUNDING_OUT])
+_mplan("C04", "plan_c04", ["define_moments! expansions at N = 4 (crate's Moments4), 5, 6, 8, 10 (mirprobe crate): new, add, central_moment, standardized_moment, IterBinomial"],
+       ["M: add-step for every p <= N, all n; central/standardized moment accessors for every p <= N; definitional streams of 2..3 (4 thorough)"],
+       [ROUNDING_OUT, "orders other than 4,5,6,8,10", "n*max|x|^N >= 1e300 (overflow)"])
+_mplan("C08", "plan_c08", ["WeightedMean/WeightedMeanWithError: new, add, merge and every accessor"],
+       ["M: add-step for any positive running weight and any w >= 0; merge-step for all total weights >= 0; accessors on symbolic states; "
+        "definitional streams of 1..3 (4 thorough) pairs under every zero/positive weight pattern, with every 2- and 3-chunk merge tree"],
+       [ROUNDING_OUT])
+_mplan("C09", "plan_c09", ["Covariance: new, add, merge and every accessor"],
+       ["M: add-step and merge-step for all counts; accessors (pearson via r*sqrt(Sxx*Syy) = Sxy and |r| <= 1); definitional streams of 1..3 (4 thorough) "
+        "pairs with all 2/3-chunk merge trees and the x<->y swap"], [ROUNDING_OUT])
+_mplan("C10", "plan_c10", ["sample_variance of Variance, Skewness, Kurtosis, Moments4, M5, M6, WeightedMeanWithError; variance_of_mean, error; "
+                           "define_moments! sample_skewness and sample_excess_kurtosis (N = 4, 6)"],
+       ["M: accessor identities on every exact summary, symbolic n (sample-size case splits at n = 0,1,2,3,4)"], [ROUNDING_OUT])
+_mplan("C05", "plan_c05", ["Quantile::{new, add, parabolic, linear, quantile, len, p} (MIR)"],
+       ["M: one add from every well-formed marker state (count >= 5, p in [0,1], real heights): conformance to the P-square reference on every "
+        "execution path; initialisation by five symbolic observations"],
+       ["bit-level agreement of heights (the property allows 'the rounding of the same arithmetic')"],
+       k=[K("c15::step_newmin", tier="thorough", timeout=3600, note="bit-precise bookkeeping step, sample below the first marker (C05 positions)"),
+          K("c15::step_top", tier="thorough", timeout=3600, note="bit-precise bookkeeping step, sample at/above the last marker")])
+_mplan("C17", "plan_c17", ["merge of Mean/Variance (hull), add of Variance/Moments4 (sign), WeightedMeanWithError (hull, effective_len)"],
+       ["M: merged mean between the two means and merged sum of squares >= 0 for all summaries; weighted mean in [min,max] and effective_len in [1,n] for 2..3 (4) symbolic pairs"],
+       [])
